@@ -115,11 +115,18 @@ def _build(case, recs, iso):
                     if n not in first:
                         first.append(n)
             h.add_nodes(first + [n for n in iso if n not in first])
-        for e, w in zip(es, ws):
-            if weighted:
-                h.add_edge(e, weight=w)
-            else:
-                h.add_edge(e)
+        for j, (e, w) in enumerate(zip(es, ws)):
+            kw = {"weight": w} if weighted else {}
+            if j % 3 == 2:
+                # the two node sets handed over as frozensets: a container other than the
+                # documented tuple may be refused (then the tuple form is used), but if it is
+                # accepted the hyperedge must be the one described
+                try:
+                    h.add_edge((frozenset(e[0]), frozenset(e[1])), **kw)
+                    continue
+                except (TypeError, ValueError):
+                    pass
+            h.add_edge(e, **kw)
     if iso:
         h.add_nodes(list(iso))
     return h
